@@ -899,6 +899,73 @@ def chunksOf (length : Nat) : Nat := (length + CS - 1) / CS
     allocation tie of the correspondence stream only -/
 def policyMem : Nat := 262144
 
+/-- `TorPeerExtended`: vote, then `requestMetadata` -/
+def torPeerExtended (t : TorState) (msize : Nat) (env : TorEnv) : TResult :=
+  if t.infoComplete then ⟨t, .ok, 0, "TPeerExtended:complete", 0⟩
+  else if msize = 0 then ⟨t, .ok, 0, "TPeerExtended:nosize", 0⟩
+  else if msize > metaCap then ⟨t, .ok, 0, "TPeerExtended:badsize", 0⟩
+  else
+    let votes := match t.votes.find? (fun kv => kv.1 == msize) with
+      | some _ => t.votes.map (fun kv => if kv.1 == msize then (kv.1, kv.2 + 1) else kv)
+      | none => t.votes ++ [(msize, 1)]
+    let t1 := { t with votes := votes }
+    match requestMetadata t1 env with
+    | none => ⟨t1, .err "bad-env", 0, "TPeerExtended:bad-env", 0⟩
+    | some (t2, a) => ⟨t2, .ok, 48 + a, if t2.infoLen ≠ t.infoLen then "TPeerExtended:resize" else "TPeerExtended:vote", 0⟩
+
+/-- `requestMetadata(t, c.Peer)` after a block that did not complete the metadata -/
+def rqMeta (env : TorEnv) (t : TorState) (a : Nat) (tag : String) : TResult :=
+  if t.votes.isEmpty then ⟨t, .ok, a, tag ++ ":noguess", 0⟩
+  else match requestMetadata t env with
+    | none => ⟨t, .err "bad-env", a, tag ++ ":bad-env", 0⟩
+    | some (t2, a2) => ⟨t2, .ok, a + a2, tag, 0⟩
+
+/-- the metadata is complete and authentic: geometry from the environment -/
+def metaDone (env : TorEnv) (t1 : TorState) (a infoLen : Nat) : TResult :=
+  ⟨{ t1 with infoComplete := true, infoLen := 0, infoBits := [], infoRequested := [], votes := [],
+             pieceSize := env.pieceSize, length := env.length, nHashes := env.nHashes,
+             inFlight := { len := chunksOf env.length } },
+   .ok, a, "TMetaData:done", 16 * infoLen + 2 * chunksOf env.length + 65536⟩
+
+/-- `TorMetaData`: `gotMetadata`, then `requestMetadata` or completion -/
+def torMetaData (t : TorState) (size index : Nat) (data : Bytes) (env : TorEnv) : TResult :=
+  if t.infoComplete then ⟨t, .ok, 0, "TMetaData:complete", 0⟩
+  else if size ≠ t.infoLen then ⟨t, .ok, 0, "TMetaData:size", 0⟩
+  else if (if t.metaGuardGe then index ≥ t.infoRequested.length else index > t.infoRequested.length) then
+    ⟨t, .ok, 0, "TMetaData:beyond", 0⟩
+  else if data.length ≠ 16384 ∧ index * 16384 + data.length ≠ t.infoLen then ⟨t, .ok, 0, "TMetaData:length", 0⟩
+  else if bmGet t.infoBits index then rqMeta env t 0 "TMetaData:dup"
+  else if (index * 16384) % U32 > t.infoLen then ⟨t, .panic "slice bounds out of range", 0, "TMetaData:panic", 0⟩
+  else if !(List.range t.infoRequested.length).all (fun i => bmGet (bmSet t.infoBits index) i) then
+    rqMeta env { t with infoBits := bmSet t.infoBits index } (bmGrow t.infoBits index) "TMetaData:stored"
+  else if !env.hashOk then
+    ⟨{ t with infoLen := 0, infoBits := [], infoRequested := [] }, .ok, bmGrow t.infoBits index, "TMetaData:hash-mismatch", 0⟩
+  else if !env.parseOk then
+    ⟨{ t with infoLen := 0, infoBits := [], infoRequested := [] }, .ok, bmGrow t.infoBits index, "TMetaData:parse-error", 0⟩
+  else metaDone env { t with infoBits := bmSet t.infoBits index } (bmGrow t.infoBits index) t.infoLen
+
+/-- `TorData`: release the in-flight counters of the blocks covered -/
+def torData (t : TorState) (i b l : Nat) : TResult :=
+  if !t.infoComplete then ⟨t, .ok, 0, "TData:nometa", 0⟩
+  else if b % CS ≠ 0 then ⟨t, .ok, 0, "TData:odd", 0⟩
+  else if (b + l) % U32 > t.pieceSize then ⟨t, .ok, 0, "TData:spans", 0⟩
+  else
+    let cpp := t.pieceSize / CS
+    match releaseLoop t ((i * cpp + b / CS) % U32) ((l + CS - 1) % U32 / CS) 0 with
+    | none => ⟨t, .panic "index out of range", 0, "TData:panic", 0⟩
+    | some t' => ⟨t', .ok, 0, if (l + CS - 1) % U32 / CS = 0 then "TData:empty" else "TData", 0⟩
+
+/-- `TorDrop` -/
+def torDrop (t : TorState) (i b l : Nat) : TResult :=
+  if !t.infoComplete then ⟨t, .ok, 0, "TDrop:nometa", 0⟩
+  else if b % CS ≠ 0 then ⟨t, .ok, 0, "TDrop:odd", 0⟩
+  else if (b + l) % U32 > t.pieceSize then ⟨t, .ok, 0, "TDrop:spans", 0⟩
+  else
+    let cpp := t.pieceSize / CS
+    match releaseLoop t ((i * cpp + b / CS) % U32) ((l + CS - 1) % U32 / CS) 0 with
+    | none => ⟨t, .panic "index out of range", 0, "TDrop:panic", 0⟩
+    | some t' => ⟨t', .ok, 0, "TDrop", 0⟩
+
 /-- `tor.handleEvent` on the events a peer emits.  `bad-env` results (an inadmissible
     environment choice) are reported as `err "bad-env"`. -/
 def torHandle (t : TorState) (e : TEv) (env : TorEnv := {}) : TResult :=
@@ -914,63 +981,9 @@ def torHandle (t : TorState) (e : TEv) (env : TorEnv := {}) : TResult :=
     let grow := bmLen bm > t.available.len
     let t' := (bmRange bm).foldl (fun t i => (noteAvailable t i h).1) t
     ⟨t', .ok, if grow then 10 * bmLen bm else 0, if grow then "TPeerBitmap:grow" else "TPeerBitmap", 0⟩
-  | .peerExtended msize =>
-    if t.infoComplete then ⟨t, .ok, 0, "TPeerExtended:complete", 0⟩
-    else if msize = 0 then ⟨t, .ok, 0, "TPeerExtended:nosize", 0⟩
-    else if msize > metaCap then ⟨t, .ok, 0, "TPeerExtended:badsize", 0⟩
-    else
-      let votes := match t.votes.find? (fun kv => kv.1 == msize) with
-        | some _ => t.votes.map (fun kv => if kv.1 == msize then (kv.1, kv.2 + 1) else kv)
-        | none => t.votes ++ [(msize, 1)]
-      let t1 := { t with votes := votes }
-      match requestMetadata t1 env with
-      | none => ⟨t1, .err "bad-env", 0, "TPeerExtended:bad-env", 0⟩
-      | some (t2, a) => ⟨t2, .ok, 48 + a, if t2.infoLen ≠ t.infoLen then "TPeerExtended:resize" else "TPeerExtended:vote", 0⟩
-  | .metaData size index data =>
-    if t.infoComplete then ⟨t, .ok, 0, "TMetaData:complete", 0⟩
-    else if size ≠ t.infoLen then ⟨t, .ok, 0, "TMetaData:size", 0⟩
-    else
-      let chunks := t.infoRequested.length
-      if (if t.metaGuardGe then index ≥ chunks else index > chunks) then ⟨t, .ok, 0, "TMetaData:beyond", 0⟩
-      else if data.length ≠ 16384 ∧ index * 16384 + data.length ≠ t.infoLen then ⟨t, .ok, 0, "TMetaData:length", 0⟩
-      else
-        let rq := fun (t : TorState) (a : Nat) (tag : String) =>
-          if t.votes.isEmpty then (⟨t, .ok, a, tag ++ ":noguess", 0⟩ : TResult)
-          else match requestMetadata t env with
-          | none => ⟨t, .err "bad-env", a, tag ++ ":bad-env", 0⟩
-          | some (t2, a2) => ⟨t2, .ok, a + a2, tag, 0⟩
-        if bmGet t.infoBits index then rq t 0 "TMetaData:dup"
-        else if (index * 16384) % U32 > t.infoLen then ⟨t, .panic "slice bounds out of range", 0, "TMetaData:panic", 0⟩
-        else
-          let a := bmGrow t.infoBits index
-          let t1 := { t with infoBits := bmSet t.infoBits index }
-          if !(List.range chunks).all (fun i => bmGet t1.infoBits i) then rq t1 a "TMetaData:stored"
-          else if !env.hashOk then
-            ⟨{ t1 with infoLen := 0, infoBits := [], infoRequested := [] }, .ok, a, "TMetaData:hash-mismatch", 0⟩
-          else if !env.parseOk then
-            ⟨{ t1 with infoLen := 0, infoBits := [], infoRequested := [] }, .ok, a, "TMetaData:parse-error", 0⟩
-          else
-            ⟨{ t1 with infoComplete := true, infoLen := 0, infoBits := [], infoRequested := [], votes := [],
-                       pieceSize := env.pieceSize, length := env.length, nHashes := env.nHashes,
-                       inFlight := { len := chunksOf env.length } },
-             .ok, a, "TMetaData:done", 16 * t.infoLen + 2 * chunksOf env.length + 65536⟩
-  | .data i b l _ =>
-    if !t.infoComplete then ⟨t, .ok, 0, "TData:nometa", 0⟩
-    else if b % CS ≠ 0 then ⟨t, .ok, 0, "TData:odd", 0⟩
-    else if (b + l) % U32 > t.pieceSize then ⟨t, .ok, 0, "TData:spans", 0⟩
-    else
-      let cpp := t.pieceSize / CS
-      match releaseLoop t ((i * cpp + b / CS) % U32) ((l + CS - 1) % U32 / CS) 0 with
-      | none => ⟨t, .panic "index out of range", 0, "TData:panic", 0⟩
-      | some t' => ⟨t', .ok, 0, if (l + CS - 1) % U32 / CS = 0 then "TData:empty" else "TData", 0⟩
-  | .drop i b l =>
-    if !t.infoComplete then ⟨t, .ok, 0, "TDrop:nometa", 0⟩
-    else if b % CS ≠ 0 then ⟨t, .ok, 0, "TDrop:odd", 0⟩
-    else if (b + l) % U32 > t.pieceSize then ⟨t, .ok, 0, "TDrop:spans", 0⟩
-    else
-      let cpp := t.pieceSize / CS
-      match releaseLoop t ((i * cpp + b / CS) % U32) ((l + CS - 1) % U32 / CS) 0 with
-      | none => ⟨t, .panic "index out of range", 0, "TDrop:panic", 0⟩
-      | some t' => ⟨t', .ok, 0, "TDrop", 0⟩
+  | .peerExtended msize => torPeerExtended t msize env
+  | .metaData size index data => torMetaData t size index data env
+  | .data i b l _ => torData t i b l
+  | .drop i b l => torDrop t i b l
 
 end Storrent.PeerMsg
